@@ -7,7 +7,6 @@ From Coq Require Import List NArith ZArith Arith Bool Lia.
 From Gatery Require Import Bits NodeSemDefs NodeSemBits NodeSemSpec NodeSemSpecArith NodeSemSpecShift VhdlSemDefs.
 Import ListNotations.
 
-Local Ltac Zify.zify_post_hook ::= Z.div_mod_to_equations.
 
 Lemma p2_pos w : (0 < p2 w)%N.
 Proof. unfold p2. apply N.neq_0_lt_0. apply N.pow_nonzero. discriminate. Qed.
@@ -59,8 +58,8 @@ Proof.
   - intros i Hi. rewrite bv_slice_length in Hi. unfold bv_slice. rewrite bv_get_build, !vec_get.
     apply Nat.ltb_lt in Hi as Hi'. rewrite Hi'.
     replace (lo + i <? w) with true by (symmetry; apply Nat.ltb_lt; lia).
-    f_equal. unfold p2. rewrite N.mod_pow2_bits_low by lia.
-    rewrite <- N.shiftr_div_pow2, N.shiftr_spec by lia. f_equal. lia.
+    f_equal. unfold p2. symmetry. rewrite N.mod_pow2_bits_low; [|lia].
+    rewrite <- N.shiftr_div_pow2. rewrite N.shiftr_spec by lia. f_equal. lia.
 Qed.
 
 Theorem lift_slice_sound w v hi lo : lo <= hi -> hi < w ->
@@ -70,9 +69,9 @@ Proof. intros H1 H2. unfold lift_slice, vecp, vh_slice. cbn [fst snd]. apply sli
 Theorem lift_index_sound w v i : i < w -> lift_index i (vec w v) = [of_bool (vh_index i v)].
 Proof.
   intro H. unfold lift_index. rewrite (slice_vec w v i 1) by lia. unfold vec, vh_index.
-  cbn [bv_of_N]. f_equal. f_equal. unfold p2. rewrite N.pow_1_r.
-  rewrite <- N.bit0_odd, N.mod_pow2_bits_low by (cbn; lia).
-  rewrite <- N.shiftr_div_pow2, N.shiftr_spec by lia. f_equal. lia.
+  cbn [bv_of_N]. f_equal. f_equal. unfold p2.
+  rewrite <- N.bit0_odd. rewrite N.mod_pow2_bits_low by (cbn; lia).
+  rewrite <- N.shiftr_div_pow2. rewrite N.shiftr_spec by lia. f_equal.
 Qed.
 
 Theorem lift_resize_sound w n v : (v < p2 w)%N -> lift_resize w n (vec w v) = vecp (ns_resize n v).
@@ -87,6 +86,19 @@ Proof.
 Qed.
 
 (* ---- "&" ---- *)
+Lemma testbit_concat a b wb i : (b < 2 ^ N.of_nat wb)%N ->
+  N.testbit (a * 2 ^ N.of_nat wb + b) (N.of_nat i) =
+  if i <? wb then N.testbit b (N.of_nat i) else N.testbit a (N.of_nat (i - wb)).
+Proof.
+  intro Hb. assert (Hnz : (2 ^ N.of_nat wb)%N <> 0%N) by (apply N.pow_nonzero; discriminate).
+  destruct (Nat.ltb_spec i wb) as [H|H].
+  - rewrite <- (N.mod_pow2_bits_low (a * 2 ^ N.of_nat wb + b) (N.of_nat wb)) by lia.
+    rewrite N.add_comm, N.mod_add by exact Hnz. rewrite N.mod_small by exact Hb. reflexivity.
+  - replace (N.of_nat i) with (N.of_nat (i - wb) + N.of_nat wb)%N by lia.
+    rewrite <- N.div_pow2_bits.
+    rewrite N.div_add_l by exact Hnz. rewrite (N.div_small b) by exact Hb. rewrite N.add_0_r. reflexivity.
+Qed.
+
 Theorem lift_concat_sound wa wb a b : (b < p2 wb)%N ->
   lift_concat wa wb (vec wa a) (vec wb b) = vecp (vh_concat wa wb a b).
 Proof.
@@ -98,25 +110,11 @@ Proof.
     rewrite bv_get_app, bv_slice_length, vec_get.
     replace (i <? wa + wb) with true by (symmetry; apply Nat.ltb_lt; lia).
     unfold bv_slice. rewrite !bv_get_build. cbn [Nat.add].
-    unfold p2. rewrite N.mul_comm, <- N.shiftl_mul_pow2.
+    unfold p2 in *. rewrite (testbit_concat a b wb i Hb).
     destruct (Nat.ltb_spec i wb) as [H|H].
-    + rewrite vec_get. replace (i <? wb) with true by (symmetry; apply Nat.ltb_lt; lia). f_equal.
-      rewrite <- (N.div_mod' (N.shiftl a (N.of_nat wb) + b) (2 ^ N.of_nat wb)) at 1.
-      replace ((N.shiftl a (N.of_nat wb) + b) mod 2 ^ N.of_nat wb)%N with b.
-      2:{ rewrite N.shiftl_mul_pow2, N.add_comm, N.mod_add by (apply N.pow_nonzero; discriminate).
-          symmetry. apply N.mod_small. exact Hb. }
-      replace ((N.shiftl a (N.of_nat wb) + b) / 2 ^ N.of_nat wb)%N with a.
-      2:{ rewrite N.shiftl_mul_pow2, N.div_add_l by (apply N.pow_nonzero; discriminate).
-          rewrite (N.div_small b) by exact Hb. lia. }
-      rewrite N.mul_comm, <- N.shiftl_mul_pow2.
-      rewrite <- N.lor_add_disjoint_pow2.
-      * rewrite N.lor_spec, N.shiftl_spec_low by lia. reflexivity.
-      * exact Hb.
+    + rewrite vec_get. replace (i <? wb) with true by (symmetry; apply Nat.ltb_lt; lia). reflexivity.
     + replace (i - wb <? wa) with true by (symmetry; apply Nat.ltb_lt; lia).
-      rewrite vec_get. replace (i - wb <? wa) with true by (symmetry; apply Nat.ltb_lt; lia). f_equal.
-      rewrite <- N.lor_add_disjoint_pow2 by exact Hb.
-      rewrite N.lor_spec, N.shiftl_spec_high' by lia.
-      rewrite (testbit_high b wb i Hb H), orb_false_r. f_equal. lia.
+      rewrite vec_get. replace (i - wb <? wa) with true by (symmetry; apply Nat.ltb_lt; lia). reflexivity.
 Qed.
 
 (* ---- "+" "-" "*" ---- *)
